@@ -3,6 +3,7 @@
 -/
 import Nuts.Model.Tx
 import NutsProofs.Props.C04
+import NutsProofs.Facts
 namespace NutsProofs.C12
 open Nuts Nuts.Model Nuts.Model.DB NutsProofs NutsProofs.C04
 
@@ -80,5 +81,14 @@ theorem C12_witness_partial_index :
     get wFail.1 [97] [107] 0 = .err ∧
     (getAll wFail.1 [97] 0).map (fun l => l.map fun o => o.map (·.value)) = .ok [some [49]] := by
   decide
+
+/-- regenerated facts used above: the oversize test is the first thing the loop does to a record, and
+every exported Tx method except the listed ones detects a finished transaction before touching `tx.db` -/
+theorem C12_size_test_first :
+    NutsGen.F.commitLoop.head? = some ("return", "entrySize > tx.db.opt.SegmentSize", "return ErrKeyAndValSize") :=
+  Facts.commit_size_tests.1
+
+theorem C12_closed_checks :
+    (NutsGen.F.closedChecks.filter (fun p => !p.2)).map (·.1) = Facts.closedExceptions := Facts.closed_checks_ok
 
 end NutsProofs.C12
